@@ -3,6 +3,7 @@ package c11
 
 import (
 	"bytes"
+	"crypto/rand"
 	"crypto/x509"
 	"errors"
 	"fmt"
@@ -80,7 +81,7 @@ func gen(t *rapid.T) Program {
 		if g < 8 {
 			nk := rapid.IntRange(0, 2).Draw(t, l+"NK")
 			for k := 0; k < nk; k++ {
-				full := []string{"add", "addhard", "signown", "signhard", "signhard", "removehard", "remove"}
+				full := []string{"add", "addhard", "signown", "signhard", "signviahard", "signhard", "removehard", "remove"}
 				var seq []string
 				for _, s := range full {
 					if s == "add" || rapid.Bool().Draw(t, fmt.Sprintf("%sK%d%s", l, k, s)) {
@@ -313,6 +314,38 @@ func runOnce(prog Program, rep int) (err error, readPurge bool) {
 						} else if exact && expectOK {
 							viol.set(vh.Errf("%s failed although the key is present: %v", where, e))
 						}
+					case "signviahard":
+						// sign through the Signer object that Signers() hands out for the in-memory hardware certificate
+						expectOK := finals[g].keyPresent[op.Key] && finals[g].hardPresent[op.Key]
+						want := certFor(own, "hard").Marshal()
+						var ss []ssh.Signer
+						ss, e = ag.Signers()
+						if e != nil {
+							if exact {
+								viol.set(vh.Errf("%s: signers failed: %v", where, e))
+							}
+							break
+						}
+						var hs ssh.Signer
+						for _, s := range ss {
+							if bytes.Equal(s.PublicKey().Marshal(), want) {
+								hs = s
+							}
+						}
+						if hs == nil {
+							if exact && expectOK {
+								viol.set(vh.Errf("%s: the held hardware certificate has no signer", where))
+							}
+							break
+						}
+						sig, serr := hs.Sign(rand.Reader, tag)
+						if serr == nil {
+							if verr := vh.SSHPub(own).Verify(tag, sig); verr != nil {
+								viol.set(vh.Errf("%s: the signature returned does not verify over the caller's own data (reply of another request?): %v", where, verr))
+							}
+						} else if exact && expectOK {
+							viol.set(vh.Errf("%s: signing through the hardware signer failed although key and certificate are present: %v", where, serr))
+						}
 					case "extension":
 						var rep []byte
 						rep, e = ag.Extension("verif@harness", tag)
@@ -485,7 +518,7 @@ func exec(prog Program) (vh.Outcome, error) {
 		}
 		for _, op := range r.Ops {
 			switch op.Kind {
-			case "add", "addhard", "remove", "removehard", "removeall", "lock", "unlock", "signers", "list", "signshared", "signown", "signhard":
+			case "add", "addhard", "remove", "removehard", "removeall", "lock", "unlock", "signers", "list", "signshared", "signown", "signhard", "signviahard":
 				mutating++ // list / signers / sign purge and fill the cache: they write shared state too
 			}
 		}
@@ -509,7 +542,7 @@ func exec(prog Program) (vh.Outcome, error) {
 	return out, nil
 }
 
-const rule = "concurrent programs: 2..16 goroutines x 1..8 operations, each goroutine calling one shim agent directly or through its own client connection served by yubiagent.ServeAgent, both upstream modes, with 0..3 expired certificates (purged inside the race window) and 0..3 YSSHCA certificates preloaded. Read-type operations (list, signers, sign with a shared key, extension, raw forward) are free; mutations follow per-goroutine life cycles of the goroutine's own keys (add, add-hardware-certificate, sign with the key, sign with the in-memory hardware certificate, remove hardware certificate, remove key); the underlying agent answers sign / forwarded / extension requests with a drawn latency of 0..3 ms so that overlapping requests really overlap, so that the final state is the same for every sequential order; a quarter of the programs add a chaos goroutine (remove-all, lock, unlock), for which only reply matching, completion and containment are checked. Every request carries a unique tag (data to sign, extension payload, forward body); Gosched perturbation is drawn per operation; each program is repeated (quick 3, thorough 10). Oracles: race detector (halt_on_error), no fatal runtime error, signatures verify over the caller's own data, extension / forward replies echo the caller's tag, own-key operations succeed or fail as in the goroutine's own order, all operations complete within 60 s, final keyring and final listing equal the order-independent expectation, nothing nobody added appears. Non-trivial: >= 2 goroutines with at least one operation writing shared state."
+const rule = "concurrent programs: 2..16 goroutines x 1..8 operations, each goroutine calling one shim agent directly or through its own client connection served by yubiagent.ServeAgent, both upstream modes, with 0..3 expired certificates (purged inside the race window) and 0..3 YSSHCA certificates preloaded. Read-type operations (list, signers, sign with a shared key, extension, raw forward) are free; mutations follow per-goroutine life cycles of the goroutine's own keys (add, add-hardware-certificate, sign with the key, sign with the in-memory hardware certificate (directly and through the Signer object that Signers() returns for it), remove hardware certificate, remove key); the underlying agent answers sign / forwarded / extension requests with a drawn latency of 0..3 ms so that overlapping requests really overlap, so that the final state is the same for every sequential order; a quarter of the programs add a chaos goroutine (remove-all, lock, unlock), for which only reply matching, completion and containment are checked. Every request carries a unique tag (data to sign, extension payload, forward body); Gosched perturbation is drawn per operation; each program is repeated (quick 3, thorough 10). Oracles: race detector (halt_on_error), no fatal runtime error, signatures verify over the caller's own data, extension / forward replies echo the caller's tag, own-key operations succeed or fail as in the goroutine's own order, all operations complete within 60 s, final keyring and final listing equal the order-independent expectation, nothing nobody added appears. Non-trivial: >= 2 goroutines with at least one operation writing shared state."
 
 func TestC11Concurrent(t *testing.T) {
 	vh.Run(t, vh.Spec[Program]{Property: "C11", Name: "TestC11Concurrent", Rule: rule, Gen: gen, Exec: exec, Journal: true})
@@ -540,7 +573,7 @@ func TestC11SignersStorm(t *testing.T) {
 			var rs []Routine
 			for g := 0; g < ng; g++ {
 				if g%2 == 0 {
-					rs = append(rs, Routine{Via: []string{"direct", "conn"}[g/2%2], Ops: []GOp{{Kind: "add"}, {Kind: "addhard"}, {Kind: "signhard"}, {Kind: "signhard", Spin: 1}, {Kind: "signhard"}, {Kind: "signown"}, {Kind: "signhard"}}})
+					rs = append(rs, Routine{Via: []string{"direct", "conn"}[g/2%2], Ops: []GOp{{Kind: "add"}, {Kind: "addhard"}, {Kind: "signhard"}, {Kind: "signviahard", Spin: 1}, {Kind: "signhard"}, {Kind: "signown"}, {Kind: "signviahard"}, {Kind: "signviahard"}}})
 				} else {
 					rs = append(rs, Routine{Via: "direct", Ops: []GOp{{Kind: "forward"}, {Kind: "extension"}, {Kind: "forward", Spin: 2}, {Kind: "forward"}, {Kind: "extension"}, {Kind: "forward"}, {Kind: "forward"}, {Kind: "forward"}}})
 				}
